@@ -90,6 +90,7 @@ PROPS = {
         assumptions=["map keys are unique (basicnode rejects duplicates at assembly)", "string slicing by character uses the Go UTF-8 decoding rules modelled in Model/Utf8.lean, checked differentially incl. invalid UTF-8"],
     ),
     "C11": dict(
+        tie=["Ucan.Props.Tie.PolicyMatch"],
         props_module="Ucan.Props.C11",
         streams=["policy"],
         technique="Lean 4 proofs over a mutual-recursive model of matchStatement: classical semantics under a resolves predicate, invariance under an inductively defined operand-permutation relation (loops shown equal to folds of commutative-associative four-valued operations), monotonicity, full⇒partial, concatenation; tied to the code by an exhaustive depth-≤2 statement × data differential run plus random permuted policies",
@@ -116,7 +117,7 @@ PROPS = {
         level_note=_CHAIN_NOTE,
     ),
     "C03": dict(
-        tie=["Ucan.Props.Tie.ChainOrder"],
+        tie=["Ucan.Props.Tie.ChainOrder", "Ucan.Props.Tie.PolicyMatch"],
         props_module="Ucan.Props.C03",
         streams=["chain"],
         filter=_chain_filter(clauses=["policy", "hook"]),
